@@ -49,7 +49,7 @@ fn json_tree(r: &mut StdRng, depth: usize) -> Value {
         0 => Value::String(conc::message(r, 0, 0)),
         1 => {
             let l = r.gen_range(1..20);
-            let c = r.gen_range(0..5);
+            let c = r.gen_range(0..6);
             Value::String(conc::message(r, l, c))
         }
         2 => json!(r.gen::<i64>()),
@@ -66,7 +66,7 @@ fn json_tree(r: &mut StdRng, depth: usize) -> Value {
             let mut m = serde_json::Map::new();
             for i in 0..n {
                 let kl = r.gen_range(1..6);
-                let kc = r.gen_range(0..5);
+                let kc = r.gen_range(0..6);
                 let mut k = conc::message(r, kl, kc);
                 k.push_str(&i.to_string());
                 m.insert(k, json_tree(r, depth - 1));
@@ -155,6 +155,20 @@ pub fn make_binst(r: &mut StdRng, variant: usize) -> BInst {
             vals.insert((k.to_string(), v.to_string()), val);
         }
     }
+    // coincidences between claims: the two custom claims carry the same values; a value that is the name
+    // of another claim
+    if variant % 9 == 7 {
+        for v in ["v1", "v2", "v3"] {
+            let shared = vals[&("ca".to_string(), v.to_string())].clone();
+            vals.insert(("cb".to_string(), v.to_string()), shared);
+        }
+    }
+    if variant % 9 == 8 {
+        vals.insert(("ca".to_string(), "v1".to_string()), json!(keys["cb"].clone()));
+        vals.insert(("cb".to_string(), "v1".to_string()), json!("exp"));
+        vals.insert(("ca".to_string(), "v2".to_string()), json!("iat"));
+        vals.insert(("cb".to_string(), "v2".to_string()), json!(keys["ca"].clone()));
+    }
     let foots = ["kid-1", "{\"kid\":\"k1\"}", "é", "f"];
     BInst {
         keys,
@@ -184,6 +198,24 @@ impl BInst {
             _ => Some(self.assertion.clone()),
         }
     }
+}
+
+/// Generic layer only: the two custom-claim slots become the reserved time keys, carried by a user-defined
+/// claim type (CustomClaim refuses them), with null and non-timestamp values - GenericBuilder has no opinion
+/// about time claims, what was set must be in the token (C14).
+pub fn timekey_variant(inst: &mut BInst) {
+    for k in ["exp", "nbf", "iat"] {
+        inst.keys.insert(k.to_string(), format!("-{}", k));
+    }
+    inst.keys.insert("ca".into(), "nbf".into());
+    inst.keys.insert("cb".into(), "exp".into());
+    inst.via = Via::Any;
+    inst.vals.insert(("ca".into(), "v1".into()), Value::Null);
+    inst.vals.insert(("ca".into(), "v2".into()), json!("2031-01-01T00:00:00Z"));
+    inst.vals.insert(("ca".into(), "v3".into()), json!(0));
+    inst.vals.insert(("cb".into(), "v1".into()), json!(1546300800));
+    inst.vals.insert(("cb".into(), "v2".into()), Value::Null);
+    inst.vals.insert(("cb".into(), "v3".into()), json!("never"));
 }
 
 /// numbering of nonces by first occurrence in this run
